@@ -168,6 +168,8 @@ def invalid_layer(ctx):
     cases = {
         'same-column': ast.Select([tp, tq, agg], ast.Table('t'), None, grp, None, ast.PivotBy([1, 1]), None, None),
         'same-column-name': ast.Select([tp, tq, agg], ast.Table('t'), None, grp, None, ast.PivotBy([P, P]), None, None),
+        'same-column-name-and-position': ast.Select([tp, tq, agg], ast.Table('t'), None, grp, None, ast.PivotBy([P, 1]), None, None),
+        'same-column-position-and-name': ast.Select([tp, tq, agg], ast.Table('t'), None, grp, None, ast.PivotBy([2, Q]), None, None),
         'index-zero': ast.Select([tp, tq, agg], ast.Table('t'), None, grp, None, ast.PivotBy([0, 2]), None, None),
         'index-too-large': ast.Select([tp, tq, agg], ast.Table('t'), None, grp, None, ast.PivotBy([1, 4]), None, None),
         'index-hidden-target': ast.Select([tp, agg], ast.Table('t'), None, grp, None, ast.PivotBy([1, 3]), None, None),
